@@ -7,6 +7,9 @@
       IDVAL ::= (trace N) | (span N) | (num N) | (text xHEX)
       T ::= (event EID (props (xKEY IDVAL)…)) | (cur CID)
           | (span ID KIND EN RT RS (props (xKEY IDVAL)…) T…)    KIND ::= sync|newspan|direct|async|anewspan|adirect
+                                                                       | (rsync|rsync2|rasync|rasync2).(ok|errq|errret)
+                                                                 (Result-aware macro completion; the exit path is
+                                                                  invisible to the model: completion is inside the frame)
                                                                  EN ::= true|false   RT, RS ::= none | N
           | (hop THREAD T…) | (exec (threads T0 T1…) T…) | (yield) | (par ((branch T…)…) (sched I…))
           | (panic) | (catch T…)                 a panic unwinds to the nearest catch (or ends the case: `;panic`)
@@ -114,7 +117,7 @@ def signature (line : String) (ts : List Tree) (incoming : List (String × IdVal
     let cs := line.toList
     let has (s : String) : String := if hasInfix s.toList cs then "1" else "0"
     let inc := if incoming.isEmpty then "0" else "1"
-    s!"depth={min d 6},in={inc},dis={has " false "},async={has " async "},par={has "(par "},hop={has "(hop "},exec={has "(exec "},none={has " none "},panic={has "(panic)"}"
+    s!"depth={min d 6},in={inc},dis={has " false "},async={has " async "},par={has "(par "},hop={has "(hop "},exec={has "(exec "},none={has " none "},panic={has "(panic)"},res={has " rsync"},ares={has " rasync"},err={has ".err"}"
 
 /-- the ctxt wrapper / runtime variant the harness drives; the model is the same for all of them
     (C03 `wrappers_transparent`, `erased_storage_identity`) -/
